@@ -47,7 +47,60 @@ class EvLen(Evaluator):
     def getattr(self, v, attr, n=None):
         if isinstance(v, Seq) and attr == "count":
             return Closure(lambda kind: sum((p.length for p in v.parts if getattr(getattr(p, "atom", None), "kind", None) == kind.f["wires"]), Lin.of(0)))
+        if isinstance(v, Obj) and v.kind == "tk" and attr == "post_processing":
+            return Obj("pp", cod=Seq.atom(kinded("post_processing.cod", "bit", self.pp)))
         return super().getattr(v, attr, n)
+
+    def e_BinOp(self, n, env):
+        if isinstance(n.op, ast.Pow):
+            l = self.ev(n.left, env)
+            if isinstance(l, Obj) and l.kind == "kindtag":
+                return Seq.atom(kinded("%s**" % l.f["wires"], l.f["wires"], Lin.of(self.ev(n.right, env))))
+        if isinstance(n.op, (ast.MatMult, ast.RShift)):
+            l, r = self.ev(n.left, env), self.ev(n.right, env)
+            if isinstance(l, DLen) or isinstance(r, DLen):
+                l, r = to_dlen(l), to_dlen(r)
+                return DLen(l.dom + r.dom, l.cod + r.cod) if isinstance(n.op, ast.MatMult) else DLen(l.dom, r.cod)
+        return super().e_BinOp(n, env)
+
+
+class DLen:
+    """a circuit up to its numbers of input and output wires"""
+    def __init__(self, dom, cod):
+        self.dom, self.cod = Lin.of(dom), Lin.of(cod)
+
+
+def to_dlen(v):
+    if isinstance(v, DLen):
+        return v
+    if isinstance(v, Obj) and v.kind == "Box":
+        return DLen(v.f["dom"].length, v.f["cod"].length)
+    raise Unsupported("not a circuit: %r" % (v,))
+
+
+class ClsObj(Obj):
+    """a class used in isinstance tests; calling ClassicalGate(name, dom, cod, data) gives a circuit with those numbers of bits"""
+    def __call__(self, *args, **kw):
+        if self.f["name"] == "ClassicalGate" and len(args) >= 3:
+            return DLen(Lin.of(args[1]) if not isinstance(args[1], Seq) else args[1].length, Lin.of(args[2]) if not isinstance(args[2], Seq) else args[2].length)
+        raise Unsupported("construction of %s" % self.f["name"])
+
+
+def tk_model(ev):
+    """the tket circuit as far as lengths go: |post_processing.cod| is tracked in ev.pp"""
+    def add_bit(unit=None, offset=None):
+        if offset is not None:
+            ev.pp = ev.pp + 1
+        return Opaque()
+
+    def post_process(d=None):
+        if not isinstance(d, DLen):
+            raise HelperFailure("post_process of a value that is not a circuit of known arity")
+        ev.pp = ev.pp + d.cod - d.dom
+        return Opaque()
+    noop = Closure(lambda *a, **k: Opaque())
+    return Obj("tk", add_bit=Closure(add_bit), post_process=Closure(post_process), post_select=noop, Measure=noop, rename_units=noop, add_blank_wires=noop, scale=noop,
+               n_qubits=Lin.var("tk.n_qubits"), n_bits=Lin.var("tk.n_bits"), bits=Seq.atom(Atom("tk.bits")))
 
 
 def kinded(name, kind, length=None):
@@ -85,8 +138,6 @@ def box_signatures(ctx):
                 if isinstance(res, RaisesError) or not isinstance(res, Inst):
                     continue
                 x = res
-                if c.name == "Bits" and x.attrs.get("_dagger"):
-                    continue        # daggered bits are classical post-processing (another branch)
                 try:
                     dom, cod = to_kinded(x.attrs["_dom"], c.name + ".dom"), to_kinded(x.attrs["_cod"], c.name + ".cod")
                 except Unsupported:
@@ -94,12 +145,16 @@ def box_signatures(ctx):
                 attrs = {k: v for k, v in x.attrs.items() if k in ("destructive", "override_bits", "_dagger") and isinstance(v, (bool, type(None)))}
                 key = (label.replace("qubits", "").replace("bits", "").strip(","), repr(dom), repr(cod))
                 lab = c.name + ("(%s)" % label if label else "")
+                if c.name == "Bits":
+                    lab = "Bits.dagger()" if x.attrs.get("_dagger") else "Bits"
                 if c.name == "Discard":
                     lab = "Discard(%s)" % ("qubits" if count(dom, "qubit") != 0 else "bits")
                 if (lab, repr(dom)) in seen:
                     continue
                 seen.add((lab, repr(dom)))
                 out.append((lab, c.name, dom, cod, attrs))
+    a, b = kinded("gate.dom", "bit", Lin.var("a")), kinded("gate.cod", "bit", Lin.var("b"))
+    out.append(("ClassicalGate(a bits -> b bits)", "ClassicalGate", Seq.atom(a), Seq.atom(b), {"_dagger": False}))
     return out
 
 
@@ -124,10 +179,15 @@ def run_block(ev, body, env):
             n_iter = it.length if isinstance(it, Seq) else Lin.var("?%d" % next(_fresh))
             assigned = {t.id for s in ast.walk(st) if isinstance(s, ast.Assign) for t in s.targets if isinstance(t, ast.Name)}
             loop_vars = [v for v in tracked if v in assigned]
-            for cands in itertools.product((0, 1, -1), repeat=len(loop_vars)):
+            pp_loop = any(isinstance(c, ast.Call) and isinstance(c.func, ast.Attribute) and c.func.attr in ("add_bit", "post_process") for c in ast.walk(st))
+            pp0 = getattr(ev, "pp", Lin.of(0))
+            for cands_all in itertools.product((0, 1, -1), repeat=len(loop_vars) + (1 if pp_loop else 0)):
+                cands = cands_all[:len(loop_vars)]
+                ppc = cands_all[-1] if pp_loop else 0
                 j = Lin.var("j")
                 e2 = dict(env)
                 befores = {}
+                ev.pp = pp0 + j * ppc
                 for v, cnd in zip(loop_vars, cands):
                     befores[v] = Atom("%s@j" % v, env[v].length + j * cnd)        # hypothesis: grows by cnd per iteration
                     e2[v] = Seq.atom(befores[v])
@@ -139,7 +199,8 @@ def run_block(ev, body, env):
                 ev.facts = ev.facts.extend(j, n_iter - j - 1)
                 try:
                     run_block(ev, st.body, e2)
-                    ok = all(isinstance(e2[v], Seq) and ev.facts.eq(e2[v].length - befores[v].length, c) for v, c in zip(loop_vars, cands))
+                    ok = all(isinstance(e2[v], Seq) and ev.facts.eq(e2[v].length - befores[v].length, c) for v, c in zip(loop_vars, cands)) and \
+                        ev.facts.eq(ev.pp - (pp0 + j * ppc), ppc)
                 except (Unsupported, Undecided, Unlocatable):
                     ok = False
                 finally:
@@ -147,10 +208,15 @@ def run_block(ev, body, env):
                 if ok:
                     for v, cnd in zip(loop_vars, cands):
                         env[v] = Seq.atom(Atom("%s'" % v, env[v].length + n_iter * cnd))
+                    ev.pp = pp0 + n_iter * ppc
                     break
             else:
-                if loop_vars:
-                    raise Unsupported("cannot summarise the effect of the loop at line %d on %s" % (st.lineno, loop_vars))
+                ev.pp = pp0
+                if loop_vars or pp_loop:
+                    raise Unsupported("cannot summarise the effect of the loop at line %d on %s" % (st.lineno, loop_vars + (["post_processing"] if pp_loop else [])))
+            continue
+        if isinstance(st, ast.Expr) and isinstance(st.value, ast.Call):
+            ev.ev(st.value, env)
             continue
         if isinstance(st, ast.If):
             t = ev.ev(st.test, env)
@@ -188,7 +254,7 @@ def check_arity(ctx):
     loop = next((s for s in top.body if isinstance(s, ast.For) and "layers" in ast.unparse(s.iter)), None)
     ctx.need(loop is not None, "to_tk has no loop over the layers")
     sigs = box_signatures(ctx)
-    ctx.need(len(sigs) >= 8, "fewer than 8 box signatures could be constructed (%s)" % [s[0] for s in sigs])
+    ctx.need(len(sigs) >= 11, "fewer than 11 box signatures could be constructed (%s)" % [s[0] for s in sigs])
     for label, cname, dom, cod, attrs in sigs:
         LQ, LB = kinded("LQ", "qubit"), kinded("LB", "bit")
         left = Seq([Seg(LQ), Seg(LB)])
@@ -199,14 +265,16 @@ def check_arity(ctx):
         facts = Facts([Lin.var(v) - 1 for v in sizes])
         ev = EvLen(facts, "to_tk[%s]" % label)
         qubit, bit = Obj("kindtag", wires="qubit"), Obj("kindtag", wires="bit")
-        isa = (cname,)
+        isa = tuple(k.name for k in m.mro(m.cls(("discopy.quantum.circuit." if cname in ("Measure", "Discard") else "discopy.quantum.gates.") + cname)))
         bsl = Lin.var(sizes[0]) if sizes else Lin.of(1)
         box = Obj("Box", dom=dom, cod=cod, isa=isa, bitstring=Seq.atom(Atom("bitstring", bsl)), is_dagger=bool(attrs.get("_dagger")),
                   **{k: v for k, v in attrs.items() if k != "_dagger"})
         env = {"left": left, "box": box, "_": Opaque(), "qubits": Seq.atom(QL), "bits": Seq.atom(BL), "qubit": qubit, "bit": bit,
-               "tk_circ": Opaque(), "Qubit": Closure(lambda *a: Opaque()), "Bit": Closure(lambda *a: Opaque())}
+               "tk_circ": tk_model(ev), "Qubit": Closure(lambda *a: Opaque()), "Bit": Closure(lambda *a: Opaque()),
+               "Id": Closure(lambda t=0: DLen(t.length, t.length) if isinstance(t, Seq) else DLen(Lin.of(t), Lin.of(t)))}
+        ev.pp = nb0                    # |post_processing.cod| = number of open bit wires (the classical side of the invariant)
         for nm in ("Ket", "Bits", "Measure", "Bra", "Discard", "Swap", "Scalar", "ClassicalGate", "QuantumGate"):
-            env[nm] = Obj("cls", name=nm)
+            env[nm] = ClsObj("cls", name=nm)
         ev.builtins["isinstance"] = lambda v, c: any(getattr(k, "f", {}).get("name") in v.f.get("isa", ()) for k in (c if isinstance(c, tuple) else (c,))) if isinstance(v, Obj) else False
         ev.builtins["enumerate"] = lambda s: Seq.atom(Atom("enumerate", s.length)) if isinstance(s, Seq) else (_ for _ in ()).throw(Unsupported("enumerate of %r" % (s,)))
         for hname, hfn in helpers.items():
@@ -242,6 +310,9 @@ def check_arity(ctx):
                 bad.append("len(bits) changes by %r, the box changes the number of bit wires by %r" % (db, wb))
             ctx.ob("R13.2", "%s.to_tk:handler[%s]" % (TK, label), not bad, found="; ".join(bad) or "Δqubits = %r, Δbits = %r" % (wq, wb if cname != "Bra" else "(post-selected)"),
                    required="len(qubits) / len(bits) follow the wires of the diagram (invariant stated in to_tk)", mod=TK, node=cur, sig="arity:" + label)
+            dpp = ev.pp - nb0
+            ctx.ob("R13.8", "%s.to_tk:post-processing[%s]" % (TK, label), ev.facts.eq(dpp, wb), found="the codomain of the post-processing changes by %r bits, the box changes the number of bit wires by %r" % (dpp, wb),
+                   required="the classical post-processing has one output per open bit wire (classical gates, swaps and discards are applied to it at wire positions)", mod=TK, node=cur, sig="pp-arity:" + label)
         except Unlocatable as e:
             ctx.ob("R13.2", "%s.to_tk:handler[%s]" % (TK, label), False, found=str(e), required="register slices located by wire counts", mod=TK, node=loop, sig="arity-slice:" + label)
         except (Unsupported, Undecided, HelperFailure) as e:
@@ -464,6 +535,10 @@ def check_dispatch(ctx):
     def handler_of(body):
         calls = {c.func.id for s in body for c in ast.walk(s) if isinstance(c, ast.Call) and isinstance(c.func, ast.Name)} | \
             {c.func.attr for s in body for c in ast.walk(s) if isinstance(c, ast.Call) and isinstance(c.func, ast.Attribute) and ast.unparse(c.func.value) == "tk_circ"}
+        targets = {t.id for s in body if isinstance(s, ast.Assign) for t in s.targets if isinstance(t, ast.Name) and isinstance(s.value, ast.BinOp)
+                   and all(isinstance(x, ast.Subscript) for x in (s.value.left, s.value.right))}
+        if {"bits", "qubits"} <= targets:
+            return "slices"
         for h in ("prepare_qubits", "prepare_bits", "measure_qubits", "add_gate", "scale", "swap", "post_process"):
             if h in calls:
                 return h
@@ -530,13 +605,25 @@ def check(ctx):
     ctx.rule("R13.4", "batch loops read per-circuit state (scalar, post_selection, post-processing) from the loop variable")
     ctx.rule("R13.5", "Born rule on scalars, same as cqmap.Functor")
     ctx.rule("R13.6", "dispatch order / totality of the layer loop; preamble and postlude")
+    ctx.rule("R13.7", "register lists: the registers renamed by prepare_* are the ones whose entries are shifted; lists split by value stay sorted")
+    ctx.rule("R13.9", "wire positions: add_bit receives the position at which the register enters `bits`; from_tk maps a register to its wire without the post-selected ones")
+    ctx.rule("R13.10", "from_tk.make_units_adjacent: effect of a step on wire positions (first qubit at offset, second right after it)")
+    ctx.rule("R13.11", "tk.Circuit.rename_units re-keys the post-selection simultaneously")
+    ctx.rule("R13.8", "the classical post-processing has one output per open bit wire after every handler")
     check_conventions(ctx)
     check_arity(ctx)
     check_flag(ctx)
     check_batches(ctx)
     check_dispatch(ctx)
+    from . import c13b
+    c13b.check(ctx)
+    ctx.floor("R13.7", 5)
+    ctx.floor("R13.9", 3)
+    ctx.floor("R13.10", 5)
+    ctx.floor("R13.11", 2)
     ctx.floor("R13.1", 11)
-    ctx.floor("R13.2", 8)
+    ctx.floor("R13.2", 11)
+    ctx.floor("R13.8", 11)
     ctx.floor("R13.4", 7)
     ctx.floor("R13.6", 25)
     ctx.not_decided += ["equality of output distributions on a simulator", "which physical unit a rename lands on beyond arity", "swap routing of from_tk.make_units_adjacent"]
